@@ -267,10 +267,12 @@ var (
 		"2006-01-02T15:04:05.000-0700",
 
 		Time.RFC1123,
+		Time.RFC1123Z, // a zone without an abbreviation prints as its offset
 	}
 	matchDateTimeZone = regexp.MustCompile(`^(.*)(?:(Z)|([\+\-]\d{2}):(\d{2}))$`)
 	// 15.9.1.15.1: expanded years are a sign followed by six digits.
 	matchDateExpandedYear = regexp.MustCompile(`^([\+\-]\d{6})(.*)$`)
+	matchDateLongYear     = regexp.MustCompile(`^(\w{3}, \d{2} \w{3} )(-?\d{3,})( \d{2}:\d{2}:\d{2} .+)$`)
 )
 
 // dateParse returns the epoch of the parsed date.
@@ -287,6 +289,14 @@ func dateParse(date string) float64 {
 		standIn := 2000 + ((year%400)+400)%400
 		yearShift = year - standIn
 		date = fmt.Sprintf("%04d%s", standIn, match[2])
+	} else if match := matchDateLongYear.FindStringSubmatch(date); match != nil {
+		// What toString and toUTCString print for years outside 0..9999.
+		year, _ := strconv.Atoi(match[2])
+		if year < 0 || year > 9999 {
+			standIn := 2000 + ((year%400)+400)%400
+			yearShift = year - standIn
+			date = fmt.Sprintf("%s%04d%s", match[1], standIn, match[3])
+		}
 	}
 
 	if match := matchDateTimeZone.FindStringSubmatch(date); match != nil {
